@@ -98,8 +98,15 @@ def run(ctx):
         "external (non-cdd) modules import successfully",
         "all arms of module-level if/try are walked in source order (over-approximation)",
         "import-time events come from module bodies, class bodies, decorators, defaults and "
-        "annotations; function bodies run only when called",
+        "annotations; a function body runs when a module-level statement calls it (directly, or through a "
+        "consumed map/filter/partial): its local imports, module attribute chains, global names of a "
+        "still-loading module, nested calls (depth <= 6) and import_module(<foldable>) are executed in the "
+        "machine, `if` tests folded with the constant arguments; an import_module whose argument cannot be "
+        "folded at import time is reported",
     ]
+    n_call_events = sum(1 for v in machine.events.values() for e in v if e[0] == "call")
+    ctx.count("import_time_call_events", n_call_events)
+    ctx.floor("module-level calls into repository functions", n_call_events, 8)
     ok_single = {}
     fails = {}
     for m in starts:
@@ -191,6 +198,7 @@ def run(ctx):
             line=1,
         )
     ctx.count("ordered_pairs_simulated", n_pairs)
+    ctx.count("import_time_function_bodies_executed", machine.calls_executed)
     for (fm, ln, kind, text), lst in sorted(pair_fail.items()):
         mod = index.modules.get(fm)
         ctx.ob(
